@@ -194,15 +194,21 @@ func (r *Report) Journal(x interface{}) {
 	r.mu.Unlock()
 }
 
+// WritePartial stores what has been collected so far with Done=false (used
+// before a call that may kill the process).
+func (r *Report) WritePartial() { r.write(false) }
+
 // Write stores the report; Done tells the driver the child reached its end.
-func (r *Report) Write() {
+func (r *Report) Write() { r.write(true) }
+
+func (r *Report) write(done bool) {
 	r.mu.Lock()
 	defer r.mu.Unlock()
 	r.NonTrivial = r.NonTrivial[:0]
 	for h := range r.nt {
 		r.NonTrivial = append(r.NonTrivial, strconv.FormatUint(h, 16))
 	}
-	r.Done = true
+	r.Done = done
 	r.WallS = time.Since(r.start).Seconds()
 	b, err := json.Marshal(r)
 	if err != nil {
